@@ -35,7 +35,7 @@ type c06Pkt struct {
 	data     []byte
 }
 
-type c06Bus struct{ ipcp, v6 []c06Pkt }
+type c06Bus struct{ ipcp, v6, lcp []c06Pkt }
 
 func (b *c06Bus) Publish(topic string, ev events.Event) {
 	if topic != events.TopicEgress {
@@ -51,7 +51,7 @@ func (b *c06Bus) Publish(topic string, ev events.Event) {
 		return
 	}
 	proto := uint16(raw[6])<<8 | uint16(raw[7])
-	if proto != ppp.ProtoIPCP && proto != ppp.ProtoIPv6CP {
+	if proto != ppp.ProtoIPCP && proto != ppp.ProtoIPv6CP && proto != ppp.ProtoLCP {
 		return
 	}
 	l := int(raw[10])<<8 | int(raw[11])
@@ -59,10 +59,13 @@ func (b *c06Bus) Publish(topic string, ev events.Event) {
 	if l >= 4 && 8+l <= len(raw) {
 		pkt = c06Pkt{code: raw[8], id: raw[9], data: append([]byte(nil), raw[12:8+l]...)}
 	}
-	if proto == ppp.ProtoIPCP {
+	switch proto {
+	case ppp.ProtoIPCP:
 		b.ipcp = append(b.ipcp, pkt)
-	} else {
+	case ppp.ProtoIPv6CP:
 		b.v6 = append(b.v6, pkt)
+	default:
+		b.lcp = append(b.lcp, pkt)
 	}
 }
 func (b *c06Bus) Subscribe(string, events.Handler) events.Subscription { return c06Sub{} }
@@ -181,6 +184,41 @@ func c06ShowAddr(ip net.IP) string {
 	return "h" + c06Hex(ip)
 }
 
+// Brings the session's real LCP to Opened by packets, from a fresh object (s.up) or from Opened (the
+// subscriber renegotiates: the real This-Layer-Down callback onLCPDown runs, which sends Down to the NCPs),
+// and lets the real onLCPUp start authentication.  Returns false when LCP did not reach Opened.
+func c06LCPOpened(s *SessionState, bus *c06Bus, first bool) bool {
+	lastReq := func() *c06Pkt {
+		for i := len(bus.lcp) - 1; i >= 0; i-- {
+			if bus.lcp[i].code == ppp.ConfReq {
+				return &bus.lcp[i]
+			}
+		}
+		return nil
+	}
+	peerReq := []byte{5, 6, 0x0a, 0x0b, 0x0c, 0x0d}
+	if first {
+		bus.lcp = nil
+		s.up()
+		r := lastReq()
+		if r == nil {
+			return false
+		}
+		s.lcp.FSM().Input(ppp.ConfAck, r.id, r.data)
+		s.lcp.FSM().Input(ppp.ConfReq, 1, peerReq)
+	} else {
+		bus.lcp = nil
+		s.lcp.FSM().Input(ppp.ConfReq, 2, peerReq) // Opened: tld (onLCPDown), scr, sca -> Ack-Sent
+		r := lastReq()
+		if r == nil {
+			return false
+		}
+		s.lcp.FSM().Input(ppp.ConfAck, r.id, r.data) // tlu: onLCPUp -> authentication starts again
+	}
+	bus.lcp = nil
+	return s.lcp.FSM().State() == ppp.Opened
+}
+
 func c06Sess(f []string) string {
 	ifMgr := ifmgr.New()
 	ifMgr.Add(&ifmgr.Interface{SwIfIndex: 10, SupSwIfIndex: 2, Name: "TenGigE0/0.100", Type: ifmgr.IfTypeSub, OuterVlanID: 100})
@@ -220,6 +258,9 @@ func c06Sess(f []string) string {
 		c.installInMemoryState(s)
 	} else {
 		s.initPPP()
+		if !c06LCPOpened(s, bus, true) {
+			return "lcp-not-opened"
+		}
 		if a0 != "none" {
 			s.Attributes[aaa.AttrIPv4Address] = net.IP(c06Bytes(a0)).String()
 		}
@@ -230,6 +271,7 @@ func c06Sess(f []string) string {
 		s.startNCP()
 	}
 	defer func() {
+		s.stopCHAPRetryTimer()
 		s.ipcp.FSM().Kill()
 		s.ipv6cp.FSM().Kill()
 		s.lcp.FSM().Kill()
@@ -290,9 +332,19 @@ func c06Sess(f []string) string {
 			} else {
 				s.Attributes[aaa.AttrIPv4Address] = net.IP(c06Bytes(ra)).String()
 			}
+			// the production path: LCP renegotiated (real onLCPDown), LCP up again, authentication repeated,
+			// then the AAA answer is evaluated and startNCP runs
+			if !c06LCPOpened(s, bus, false) {
+				return "lcp-not-reopened"
+			}
 			s.extractIPFromAttributes()
 			c06Registry(s, ral, rrs)
+			s.Phase = ppp.PhaseAuthenticate
 			s.startNCP()
+		case ev == "D":
+			if !c06LCPOpened(s, bus, false) {
+				return "lcp-not-reopened"
+			}
 		case ev[0] == 'S':
 			// answer to our request with an identifier that is not our last one
 			var sid uint8 = 200
@@ -320,8 +372,8 @@ func c06Sess(f []string) string {
 		if s.ipcpOpen {
 			up = 1
 		}
-		parts = append(parts, fmt.Sprintf("%s up=%d a=%s pa=%s", drain(), up, c06ShowAddr(s.IPv4Address),
-			c06ShowAddr(s.ipcp.PeerConfig().PeerAddress)))
+		parts = append(parts, fmt.Sprintf("%s up=%d a=%s pa=%s pn=%s", drain(), up, c06ShowAddr(s.IPv4Address),
+			c06ShowAddr(s.ipcp.PeerConfig().PeerAddress), c06ShowAddr(s.ipcp.PeerConfig().Address)))
 	}
 	return strings.Join(parts, " | ")
 }
@@ -357,6 +409,10 @@ func c06Sess6(f []string) string {
 		s.ipv6cp.FSM().Kill()
 		s.lcp.FSM().Kill()
 	}()
+	if !c06LCPOpened(s, bus, true) {
+		return "lcp-not-opened"
+	}
+	defer s.stopCHAPRetryTimer()
 	s.extractIPFromAttributes()
 	s.Phase = ppp.PhaseAuthenticate
 	s.startNCP()
@@ -432,7 +488,15 @@ func c06Sess6(f []string) string {
 		case 'j':
 			s.ipv6cp.FSM().Input(ppp.ConfRej, rid, c06Bytes(ev[1:]))
 		case 'R':
+			if !c06LCPOpened(s, bus, false) {
+				return "lcp-not-reopened"
+			}
+			s.Phase = ppp.PhaseAuthenticate
 			s.startNCP()
+		case 'D':
+			if !c06LCPOpened(s, bus, false) {
+				return "lcp-not-reopened"
+			}
 		default:
 			return "badevent"
 		}
